@@ -226,6 +226,7 @@ static void classify_frame(Frame &f, const EndpointCfg &cfg) {
 	// an error PDU is acted upon before authentication; it is not "bad data" but its own cause class
 	if (i.framed && i.known_tag && i.has_error && i.ver == cfg.pdu_ver) f.bad = false;
 	f.clean_resp = auth && i.has_resp && i.has_id && i.status == 0 && !i.has_error;
+	f.authentic = auth;
 }
 
 void AsyncSim::refresh_frames() {
@@ -824,11 +825,12 @@ void AsyncSim::check_response(HRec &r, Attempt &a) {
 	KSI_AsyncHandle_getRequestId(r.h, &hid);
 	if (hid != a.id) K.fail("C13", "request-id-changed", "response", "handle #%d id 0x%llx at return, 0x%llx when accepted", r.idx, (unsigned long long)hid, (unsigned long long)a.id);
 	std::vector<const Frame *> good, prem_same_run, prem_all;
-	bool premature = false, premature_same_run = false, unauth = false, anyid = false;
+	bool premature = false, premature_same_run = false, unauth = false, anyid = false, only_unauthentic = true;
 	for (auto &f : frames) {
 		if (!f.info.has_id || f.info.id != a.id || f.arrive_seq == 0 || f.arrive_seq > K.seq) continue;
 		anyid = true;
-		if (!f.clean_resp) { unauth = true; continue; }
+		if (!f.clean_resp) { unauth = true; if (f.authentic) only_unauthentic = false; continue; }
+		only_unauthentic = false;
 		if (a.sent_seq == 0 || f.arrive_seq <= a.sent_seq) {
 			premature = true;
 			prem_all.push_back(&f);
@@ -845,6 +847,10 @@ void AsyncSim::check_response(HRec &r, Attempt &a) {
 	}
 	if (good.empty()) {
 		const char *key = premature ? "reply-arrived-before-the-request-was-sent-but-was-matched-after" : unauth ? "only-unauthentic-or-error-status-reply" : anyid ? "reply-not-eligible" : "no-reply-with-this-id";
+		// every PDU that bore this id failed authentication: the content that reached the caller is unauthenticated (C06)
+		if (!premature && unauth && only_unauthentic)
+			K.fail("C06", "content-from-unauthentic-pdu", "response", "handle #%d (id 0x%llx) completed with a response, but every PDU bearing its id failed authentication (MAC, algorithm, version or missing header / MAC)", r.idx, (unsigned long long)a.id);
+		else
 		K.fail("C13", "response-without-valid-reply", key, "handle #%d (id 0x%llx, sent_seq %llu) completed with a response, but no authentic status-0 reply with its id arrived after it was sent",
 		       r.idx, (unsigned long long)a.id, (unsigned long long)a.sent_seq);
 		return;
@@ -938,7 +944,6 @@ bool AsyncSim::cause_exists(const Attempt &a, int err, std::string &why) {
 		return false;
 	};
 	auto bad_frame = [&]() { for (auto &f : frames) if (f.bad && f.arrive_seq >= lo_conn && f.arrive_seq <= hi) return true; return false; };
-	auto err_pdu = [&]() { for (auto &f : frames) if (f.info.has_error && f.arrive_seq >= lo_conn && f.arrive_seq <= hi) return true; return false; };
 	auto xfer_fail = [&]() { for (auto &xp : C.xfers) if (xp->ep == e.net_ep && xp->st == Xfer::DONE && xp->result != CURLE_OK && xp->done_seq >= lo && xp->done_seq <= hi) return true; return false; };
 	switch (err) {
 		case KSI_NETWORK_RECIEVE_TIMEOUT:
